@@ -134,6 +134,11 @@ fn swap_h(ka: usize, kb: usize) {
         kani::assert(*va.at(i).downcast_ref::<u64>().unwrap() == sa[i], "erased element view sees the swapped value");
     }
     kani::cover!(true, "REACHED");
+    // the vectors are not dropped here: a symbolic-index write into inline (Stack) storage makes CBMC lose
+    // the constant `drop_fn` field of the same object, and the destructor's function-pointer call then fans
+    // out over every address-taken function (u64 has no destructor anyway)
+    core::mem::forget(va);
+    core::mem::forget(vb);
 }
 
 include!("k1_views.inst.rs");
